@@ -23,15 +23,16 @@ func converged(c *sim.Cluster) (string, string) {
 	sort.Strings(leaders)
 	if len(leaders) != 1 {
 		if len(leaders) == 0 {
-			// known root cause F10a: a running node whose own latest configuration no longer contains it
-			// (an uncommitted removal it adopted at restart) while another running node still counts it as a voter
+			// known root cause F10a: a running node whose own latest configuration no longer gives it a vote
+			// (an uncommitted removal - or demotion - of itself that it adopted at restart) while another
+			// running node still counts it as a voter
 			for x, cf := range v.Conf {
-				if _, member := cf.Members[x]; member {
+				if cf.Members[x] {
 					continue
 				}
 				for y, cy := range v.Conf {
 					if y != x && cy.Members[x] && v.Status[x].Applied < cf.Index {
-						return "C15/removed-node-with-uncommitted-removal-blocks-election", fmt.Sprintf("no leader: %s runs with configuration %v (entry %d, not applied, does not contain %s) and does not campaign; %s still needs its vote (configuration %v); status %v", x, cf.Members, cf.Index, x, y, cy.Members, statusLine(v))
+						return "C15/removed-node-with-uncommitted-removal-blocks-election", fmt.Sprintf("no leader: %s runs with configuration %v (entry %d, not applied, gives %s no vote) and does not campaign; %s still needs its vote (configuration %v); status %v", x, cf.Members, cf.Index, x, y, cy.Members, statusLine(v))
 					}
 				}
 			}
